@@ -73,3 +73,25 @@ Qed.
 
 Lemma take_zero : forall buf, take 0 buf = 0 \/ buf < 0.
 Proof. intros buf. unfold take. simpl. destruct (Z.min_spec 0 buf) as [[? ->]|[? ->]]; lia. Qed.
+
+(* LE credit-based output: at most one PDU per credit, credits never negative, whatever the
+   peer's MPS (an MPS of 0 burns every credit without progress - hence D17f/D17g - but still
+   stops) *)
+Lemma coc_output_spec : forall fuel mps sdu credits,
+  0 <= credits -> credits + 1 <= Z.of_nat fuel ->
+  exists rest c n, coc_output true fuel mps sdu credits = Some (rest, c, n) /\
+                   0 <= c /\ n + c = credits /\ 0 <= n.
+Proof.
+  induction fuel as [|f IH]; intros mps sdu credits Hc Hf; [simpl in Hf; lia|].
+  cbn [coc_output]. rewrite Nat2Z.inj_succ in Hf.
+  destruct ((0 <? credits) && (0 <? sdu)) eqn:G.
+  - apply andb_true_iff in G. destruct G as [G _]. apply Z.ltb_lt in G.
+    destruct (IH mps (sdu - Z.min (Z.max mps 0) sdu) (credits - 1) ltac:(lia) ltac:(lia)) as [l [c [n [E [H1 [H2 H3]]]]]].
+    rewrite E. exists l, c, (n + 1). repeat split; lia.
+  - exists sdu, credits, 0. repeat split; lia.
+Qed.
+
+(* with "credits >= 0" one PDU too many is sent: the credits go negative *)
+Lemma coc_output_boundary_refuted :
+  coc_output false 10 23 100 2 = Some (31, -1, 3).
+Proof. vm_compute. reflexivity. Qed.
